@@ -609,7 +609,11 @@ pub fn pairimp_op(a: &[&str]) -> Option<String> {
                         && (p.index2() as usize) < needle.len() && p.index1() <= 254 && p.index2() <= 254
                 }
             };
-            Some(format!("ok {} steps=0 loads=- oracle=valid", if ok { "valid" } else { "INVALID-PAIR" }))
+            let shown = match &p {
+                None => "none".to_string(),
+                Some(p) => format!("{},{}", p.index1(), p.index2()),
+            };
+            Some(format!("ok {} steps=0 loads=- oracle={}", shown, if ok { shown.clone() } else { "INVALID-PAIR".to_string() }))
         }
     }
 }
